@@ -270,24 +270,48 @@ def build(case):
     return files, slots, baits, kinds
 
 
-def config_for(cfg):
+def config_for(cfg, company_lang=None):
     sec = {}
     if cfg["allowed"] is not None:
         sec["allowed_numbers"] = list(cfg["allowed"])
     if cfg["msi"] is not None:
         sec["max_small_integer"] = cfg["msi"]
+    if company_lang and cfg["allowed"] is not None:
+        # the case's settings as a per-language section; the top level (which the company file of another language
+        # follows) allows exactly one of the company file's two literals
+        return {"magic-numbers": {"allowed_numbers": [COMPANY_ALLOWED], LANG_KEY[company_lang]: sec}}
     return {"magic-numbers": sec} if sec else None
 
 
-def observe(p, names, cfg):
+LANG_KEY = {"py": "python", "ts": "typescript", "js": "javascript", "rs": "rust"}
+COMPANY_ALLOWED, COMPANY_FLAGGED = 7771, 8881
+COMPANY = {  # a file of ANOTHER language, named first on the command line: per-file settings must not leak to the next file
+    "py": ("aaa_company.ts", f"function company(a: number) {{\n    const b = a + {COMPANY_ALLOWED};\n    return b * {COMPANY_FLAGGED};\n}}\n"),
+    "ts": ("aaa_company.py", f"def company(a):\n    b = a + {COMPANY_ALLOWED}\n    return b * {COMPANY_FLAGGED}\n"),
+    "js": ("aaa_company.rs", f"fn company(a: i64) -> i64 {{\n    let b = a + {COMPANY_ALLOWED};\n    b * {COMPANY_FLAGGED}\n}}\n"),
+    "rs": ("aaa_company.py", f"def company(a):\n    b = a + {COMPANY_ALLOWED}\n    return b * {COMPANY_FLAGGED}\n"),
+}
+
+
+def observe(p, names, cfg, company_lang=None):
     """-> (Counter{(file, line, value)}, anomalies)"""
-    p.set_config(config_for(cfg))
+    company = company_lang if company_lang and cfg["allowed"] is not None else None
+    p.set_config(config_for(cfg, company))
+    if company:
+        names = [COMPANY[company][0]] + list(names)
     r = runner.run_cli(["magic-numbers", "--format", "json", *names], cwd=p.root)
     anomalies = []
+    if company and r.exit in (0, 1) and not r.exception:
+        mine = sorted((v["line"], v["message"]) for v in r.violations if v["file_path"].rsplit("/", 1)[-1] == COMPANY[company][0])
+        if mine != [(3, f"Magic number {COMPANY_FLAGGED} should be a named constant")]:
+            anomalies.append({"company_file_misjudged": mine, "expected": [[3, COMPANY_FLAGGED]], "config": config_for(cfg, company)})
     if r.exit not in (0, 1) or r.swallowed or r.exception:
         return None, [{"exit": r.exit, "stderr": r.stderr[-400:], "swallowed": r.swallowed, "exc": r.exception}]
     obs = Counter()
+    skip = COMPANY[company][0] if company else None
     for v in r.violations:
+        if skip and v["file_path"].rsplit("/", 1)[-1] == skip:
+            continue
         m = MSG.match(v["message"])
         if v["rule_id"] != RULE_ID or not m:
             anomalies.append({"unexpected_violation": v})
@@ -348,9 +372,10 @@ def check(case) -> Case:
     runs += ([("add", cfg_add)] if cfg_add else []) + ([("remove", cfg_rem)] if cfg_rem else [])
     observed = {}
     n_must = n_not = 0
-    with Project(files) as p:
+    company = lang if case.get("company") else None
+    with Project(dict(files, **({COMPANY[lang][0]: COMPANY[lang][1]} if company else {}))) as p:
         for tag, cfg in runs:
-            obs, anomalies = observe(p, names, cfg)
+            obs, anomalies = observe(p, names, cfg, company)
             for a in anomalies:
                 fail(f"{lang}|anomaly|{sorted(a)[0]}", {"run": tag, "config": cfg, **a, "files": files})
             if obs is None:
@@ -407,6 +432,8 @@ def label_case(case, slots, baits, kinds, n_must, runs):
     a = case["cfg"]["allowed"]
     labels.append("allowed=default" if a is None else ("allowed=empty" if not a else ("allowed=with-0-1" if (0 in a and 1 in a) else "allowed=without-0-or-1")))
     labels.append("msi=default" if case["cfg"]["msi"] is None else "msi=set")
+    if case.get("company"):
+        labels.append("per-language-section+company-file")
     labels.append("expected=" + ("0" if n_must == 0 else "1-3" if n_must <= 3 else "4-9" if n_must <= 9 else "10+"))
     for e in sorted({s["exempt"] for s in slots if s["exempt"]}):
         labels.append(f"exempt:{e}")
